@@ -15,4 +15,5 @@ gen_skeleton.generate(
     'Gen_Skel_Extrema.v',
     'Whole bodies of get_padded_extrema, interp_envelope, _find_extrema (C05; C01 through the envelope pair).',
     modules={'np', 'signal', 'interp', 'spectra', 'sys', 'logging', 'inspect', 'functools', 'collections', 'mp', 'yaml'},
-    logger='logger')
+    logger='logger',
+    call_frame_callee=True)
